@@ -408,6 +408,11 @@ Qed.
 Lemma product_new_comps l : comps (product_new l) = flat_map comps l.
 Proof. reflexivity. Qed.
 
+Theorem product_new_spec : forall l,
+  forallb flat_space l = true ->
+  flat_space (product_new l) = true /\ comps (product_new l) = flat_map comps l.
+Proof. intros l H. exact (conj (product_new_flat l H) (product_new_comps l)). Qed.
+
 Definition mkfun (sn : space * string) : elt :=
   match fst sn with
   | SBasic k _ => EFun k (snd sn) (fst sn)
@@ -717,6 +722,10 @@ Proof.
   - unfold ceq in *. rewrite Ascii.eqb_sym, E. reflexivity.
   - inversion IH; subst. constructor; [|assumption]. simpl. unfold ceq in *. now rewrite Ascii.eqb_sym, E.
 Qed.
+
+Theorem split_char_spec : forall sep s,
+  join sep (split_char sep s) = s /\ Forall (fun p => mem sep p = false) (split_char sep s).
+Proof. intros sep s. exact (conj (split_char_join sep s) (split_char_no_sep sep s)). Qed.
 
 (* s.split(): non-empty pieces without whitespace *)
 Lemma split_ws_aux_pieces : forall s cur,
